@@ -67,8 +67,8 @@ FLUIDS = {"Sodium", "Lead", "LeadBismuth", "Void"}
 def plan(tier, seed):
     q = tier == "quick"
     out = [{"name": "labels", "kind": "labels"}]
-    out += [{"name": "core%d" % i, "kind": "cores", "n": 30 if q else 500} for i in range(7)]
-    out += [{"name": "rep%d" % i, "kind": "reps", "n": 150 if q else 3000} for i in range(8)]
+    out += [{"name": "core%d" % i, "kind": "cores", "n": 50 if q else 800} for i in range(7)]
+    out += [{"name": "rep%d" % i, "kind": "reps", "n": 250 if q else 4000} for i in range(8)]
     return out
 
 
@@ -781,8 +781,8 @@ def check_unchanged(rec, blocks, before, monitor, what, w):
         rec.hit(monitor)
         d = diff_obs(a, obs_block(b))
         if d:
-            kind = sorted({x.split(":")[0] for x in d})
-            rec.violation("creating-representatives-changed-a-%s/%s" % (what, "+".join(kind)[:60]), "block %s changed: %s" % (b.getName(), d[:8]), dict(w, block=b.getName(), differs=d[:20]))
+            rec.violation("creating-representatives-changed-a-%s" % what, "block %s changed (%s): %s" % (b.getName(), ", ".join(sorted({x.split(":")[0] for x in d})), d[:8]),
+                          dict(w, block=b.getName(), differs=d[:20]))
             return
 
 
@@ -994,7 +994,7 @@ def do_cores(spec, rec):
                 d_after_group = (b, d)
                 break
         if d_after_group:
-            rec.violation("grouping-changed-a-core-block/%s" % "+".join(sorted({x.split(":")[0] for x in d_after_group[1]}))[:60], "block %s changed by makeCrossSectionGroups: %s" % (
+            rec.violation("grouping-changed-a-core-block", "block %s changed by makeCrossSectionGroups (other than its environment group): %s" % (
                 d_after_group[0].getName(), d_after_group[1][:8]), w)
         rec.case(["core", len(groups), nbu, ntemp, two_letter, sorted(len(t) for t in used_types)], nontrivial=len(groups) >= 2,
                  sample=dict(w, groups={k: len(v) for k, v in groups.items()}) if i < 1 else None)
